@@ -723,6 +723,64 @@ func buildPN(g *gen, n int) []*PN {
 	return nodes
 }
 
+// hasRefKeys: does the graph contain a non-empty map whose key type can hold references?
+// reflect.DeepEqual looks keys up by identity, so it is false by construction for a deep copy
+// of such a map (the copier copies keys like values); the canonical-isomorphism oracle covers it.
+func hasRefKeys(v reflect.Value, seen map[[2]uintptr]bool) bool {
+	switch v.Kind() {
+	case reflect.Ptr:
+		if v.IsNil() || seen[[2]uintptr{0, v.Pointer()}] {
+			return false
+		}
+		seen[[2]uintptr{0, v.Pointer()}] = true
+		return hasRefKeys(v.Elem(), seen)
+	case reflect.Map:
+		if v.IsNil() || seen[[2]uintptr{1, v.Pointer()}] {
+			return false
+		}
+		seen[[2]uintptr{1, v.Pointer()}] = true
+		switch v.Type().Key().Kind() {
+		case reflect.Interface, reflect.Struct, reflect.Array, reflect.Ptr:
+			if v.Len() > 0 {
+				return true
+			}
+		}
+		it := v.MapRange()
+		for it.Next() {
+			if hasRefKeys(it.Value(), seen) {
+				return true
+			}
+		}
+	case reflect.Interface:
+		if !v.IsNil() {
+			return hasRefKeys(v.Elem(), seen)
+		}
+	case reflect.Slice:
+		if v.IsNil() {
+			return false
+		}
+		f := v.Slice(0, v.Cap())
+		for i := 0; i < f.Len(); i++ {
+			if hasRefKeys(f.Index(i), seen) {
+				return true
+			}
+		}
+	case reflect.Array:
+		for i := 0; i < v.Len(); i++ {
+			if hasRefKeys(v.Index(i), seen) {
+				return true
+			}
+		}
+	case reflect.Struct:
+		for i := 0; i < v.NumField(); i++ {
+			if v.Type().Field(i).PkgPath == "" && hasRefKeys(v.Field(i), seen) {
+				return true
+			}
+		}
+	}
+	return false
+}
+
 // ---- shape statistics of the generated graph (for the distribution) ----
 
 type shape struct {
@@ -1006,7 +1064,7 @@ func child() {
 					break
 				}
 			}
-			if !reflect.DeepEqual(root.Interface(), res.Interface()) {
+			if !hasRefKeys(root, map[[2]uintptr]bool{}) && !reflect.DeepEqual(root.Interface(), res.Interface()) {
 				oc.Direct = append(oc.Direct, "reflect.DeepEqual(input, copy) = false")
 			}
 			if graphwalk.Canon(res) != before {
